@@ -113,6 +113,8 @@ def _rename():
             free = _free_names(w, [a.axes[nm]])
             if not free:
                 return None
+            if rng.random() < 0.06:
+                return {"a": a_id, "how": how, "axis": ref, "old": nm, "new": rng.choice(["", 7])}    # must be refused
             return {"a": a_id, "how": how, "axis": ref, "old": nm, "new": rng.choice(free)}
         free = _free_names(w, list(list.__iter__(a._axes)))
         new = []
